@@ -1,10 +1,10 @@
 #!/bin/bash
-# usage: sweep.sh <tier> <seed>...   -- runs every claimed check at the given tier for each seed, evidence untouched
+# usage: [IDS="C07 C10"] sweep.sh <tier> <seed>...   -- runs every claimed check (or those in $IDS) at the given tier for each seed, evidence untouched
 cd "$(dirname "$0")"
 export GOFLAGS=-mod=mod GOPROXY=off GOSUMDB=off GOTOOLCHAIN=local CGO_ENABLED=0 VERIF_DIR="$(pwd)"
 tier=$1; shift
 [ -x bin/vdriver ] || ./check >/dev/null 2>&1
-for s in "$@"; do for id in C04 C06 C07 C09 C10 C11 C12 C13 C16 C17 C18 C19 C20; do
+for s in "$@"; do for id in ${IDS:-C04 C06 C07 C09 C10 C11 C12 C13 C16 C17 C18 C19 C20}; do
   out=$(bin/vdriver check $id --tier $tier --seed $s --no-evidence 2>&1)
   echo "seed=$s $id rc=$? $(echo "$out" | grep -E '^OK|^VIOLATION|HARNESS' | head -1 | cut -c1-200)"
   echo "$out" | grep -E "^  class=" | head -1 | cut -c1-400
